@@ -56,6 +56,7 @@ def run(prog: Program, rep: Report, tier: str) -> None:
     ]
     fi = prog.func(FUNC)
     where = f"{loc(fi, fi.node)} {fi.qualname}"
+    reported_duration_rule(prog, rep)
     if len(fi.params) != 2:
         rep.undecided("R14.1", "signature", where, "calc_duration no longer takes (start, end)")
         return
@@ -150,6 +151,43 @@ def run(prog: Program, rep: Report, tier: str) -> None:
         rep.bad("R14.1", f"path {k}: value", where, f"duration is computed as {T.show(inner)[:300]}; accepted forms: (E - S), (E + 1 day) - S, (E - S) + 1 day, (E - S) % 1 day", key="R14.1|value")
     complete = covered["mod"] or (covered["lt"] and covered["ge"])
     rep.check(complete, "R14.1", "case split complete", where, f"the cases end<start / end>=start are not both covered correctly: {covered}", key="R14.1|complete")
+
+
+def reported_duration_rule(prog: Program, rep: Report) -> None:
+    """R14.2: the duration a schedule REPORTS is calc_duration of that very schedule's start and end."""
+    rep.rule("R14.2", "the duration reported by a schedule object is calc_duration(its own start_time, its own end_time), computed when the object is built and not remembered per slot id (no cache decorator on the way)", 2)
+    from ..interp import Ctx
+    sci = prog.cls("aioswitcher.schedule.parser:SwitcherSchedule")
+    swhere = f"{loc(sci, sci.node)} SwitcherSchedule"
+
+    def stub(I: Interp, args: List[T.Term], kw: Any, st: Any, ctx: Any, node: Any) -> T.Term:
+        return ("app", "calc_duration") + tuple(args)
+
+    def stub2(I: Interp, args: List[T.Term], kw: Any, st: Any, ctx: Any, node: Any) -> T.Term:
+        return ("app", "pretty_next_run") + tuple(args)
+
+    I = Interp(prog, stubs={FUNC: stub, "aioswitcher.schedule.tools:pretty_next_run": stub2})
+    st = I.new_state()
+    sid, rec, days, s_, e_ = ("sym", "schedule_id", "str"), ("sym", "recurring", "bool"), ("sym", "days", ("set", ("enum", "aioswitcher.schedule:Days"))), ("sym", "start_time", "str"), ("sym", "end_time", "str")
+    outs = I.construct(sci, [sid, rec, days, s_, e_], {}, st, Ctx(None, sci.module, 0), sci.node)
+    rets = [o for o in outs if o.kind == "return"]
+    bad = None
+    for o in rets:
+        d = o.state.heap[o.value[1]].fields.get("duration")
+        if d != ("app", "calc_duration", s_, e_):
+            bad = f"duration of a schedule is {T.show(d)[:120] if d else None}; expected calc_duration(start_time, end_time) of the same object"
+    rep.check(bad is None and bool(rets), "R14.2", "duration wiring", swhere, bad or "SwitcherSchedule(...) never returns", key="R14.2|wiring")
+    cached = []
+    for key in I.functions_visited:
+        f_ = prog.func(key)
+        decos = [d for d in f_.decorators if d.split("(")[0].split(".")[-1] in ("cache", "lru_cache", "cached_property", "memoize", "memoized")]
+        if decos:
+            cached.append(f"{f_.qualname} {decos}")
+    f0 = prog.func(FUNC)
+    decos0 = [d for d in f0.decorators if d.split("(")[0].split(".")[-1] in ("cache", "lru_cache", "cached_property", "memoize", "memoized")]
+    rep.check(not cached, "R14.2", "not memoised per schedule", swhere,
+              f"the duration is computed through {cached}: a method's cache key is the schedule object, which hashes and compares by slot id only - a schedule whose times were edited reports the old duration", key="R14.2|memo")
+    _ = decos0
 
 
 def minutes_form(I: Interp, S: T.Term, E: T.Term, modulus: int) -> T.Term:
